@@ -465,7 +465,8 @@ class RequireMatcher(WrappingMatcher):
 
     def skip_to_quality(self, minquality):
         skipped = self.a.skip_to_quality(minquality)
-        self.child._find_next()
+        # Re-align the intersection (a may not have moved, or may be exhausted)
+        self.child._find_first()
         return skipped
 
     def weight(self):
